@@ -67,7 +67,7 @@ def _derived_names(fn: ast.FunctionDef, seed: Set[str], orbit_var: str, step_fn:
     return d
 
 
-def rule_orbit_provenance(ctx: Ctx, funcs: List[str], step_fn: str = "local_comp_graph", orbit_var: str = "orbit_list") -> None:
+def rule_orbit_provenance(ctx: Ctx, funcs: List[str], step_fn: str = "local_comp_graph") -> None:
     repo = ctx.repo
     m = repo.module(RELABEL)
     n = 0
@@ -75,46 +75,61 @@ def rule_orbit_provenance(ctx: Ctx, funcs: List[str], step_fn: str = "local_comp
         fn = repo.anchor(RELABEL, q)
         ctx.touch(m, fn)
         gp = func_params(fn)[0]
-        d = _derived_names(fn, {gp}, orbit_var, step_fn)
-
-        def ok_elem(e: ast.AST) -> bool:
-            if isinstance(e, ast.Name):
-                return e.id in d
-            if isinstance(e, ast.Call):
-                a = call_attr(e)
-                if a == "copy" and isinstance(e.func, ast.Attribute):
-                    return ok_elem(e.func.value)
-                if a == step_fn and e.args:
-                    return ok_elem(e.args[0])
-            return False
-
-        for node in ast.walk(fn):
-            elems: List[ast.AST] = []
-            if isinstance(node, ast.Assign) and len(node.targets) == 1 and isinstance(node.targets[0], ast.Name) \
-                    and node.targets[0].id == orbit_var and isinstance(node.value, ast.List):
-                elems = list(node.value.elts)
-            elif isinstance(node, ast.Call) and call_name(node) in (f"{orbit_var}.append", f"{orbit_var}.insert"):
-                elems = [node.args[-1]]
-            elif isinstance(node, ast.Call) and call_name(node) == f"{orbit_var}.extend":
-                elems = [node.args[0]]
-            for e in elems:
-                n += 1
-                if ok_elem(e):
-                    ctx.ok("flow.provenance-closure", m, node, what=f"{q}: {norm(e)}")
-                else:
-                    ctx.fail("flow.provenance-closure", m, node,
-                             f"{q} places `{short(e)}` in its orbit list, which is neither the input graph (or its copy) nor "
-                             f"{step_fn}(<orbit element>, node): the returned graph may lie outside the local-complementation orbit",
-                             func=q, construct=f"{q}: orbit element {short(e, 80)}")
         rets = [r for r in ast.walk(fn) if isinstance(r, ast.Return) and r.value is not None]
+        # the list(s) the explorer returns, whatever they are called
+        orbit_vars: List[str] = []
+        for r in rets:
+            base = r.value.value if isinstance(r.value, ast.Subscript) else r.value
+            if isinstance(base, ast.Name) and base.id not in orbit_vars:
+                orbit_vars.append(base.id)
+        if not orbit_vars:
+            raise AnalysisError(f"{q}: no `return <list>` found")
+        built = set()
+        for orbit_var in orbit_vars:
+            d = _derived_names(fn, {gp}, orbit_var, step_fn)
+
+            def ok_elem(e: ast.AST) -> bool:
+                if isinstance(e, ast.Name):
+                    return e.id in d
+                if isinstance(e, ast.Call):
+                    a = call_attr(e)
+                    if a == "copy" and isinstance(e.func, ast.Attribute):
+                        return ok_elem(e.func.value)
+                    if a == step_fn and e.args:
+                        return ok_elem(e.args[0])
+                return False
+
+            for node in ast.walk(fn):
+                elems: List[ast.AST] = []
+                if isinstance(node, ast.Assign) and len(node.targets) == 1 and isinstance(node.targets[0], ast.Name) \
+                        and node.targets[0].id == orbit_var and isinstance(node.value, ast.List):
+                    elems = list(node.value.elts)
+                    built.add(orbit_var)
+                elif isinstance(node, ast.Call) and call_name(node) in (f"{orbit_var}.append", f"{orbit_var}.insert"):
+                    elems = [node.args[-1]]
+                    built.add(orbit_var)
+                elif isinstance(node, ast.Call) and call_name(node) == f"{orbit_var}.extend":
+                    elems = [node.args[0]]
+                    built.add(orbit_var)
+                for e in elems:
+                    n += 1
+                    if ok_elem(e):
+                        ctx.ok("flow.provenance-closure", m, node, what=f"{q}: {norm(e)}")
+                    else:
+                        ctx.fail("flow.provenance-closure", m, node,
+                                 f"{q} places `{short(e)}` in its orbit list, which is neither the input graph (or its copy) nor "
+                                 f"{step_fn}(<orbit element>, node): the returned graph may lie outside the local-complementation orbit",
+                                 func=q, construct=f"{q}: orbit element {short(e, 80)}")
         for r in rets:
             v = r.value
             base = v.value if isinstance(v, ast.Subscript) else v
             n += 1
-            if isinstance(base, ast.Name) and base.id == orbit_var:
+            if isinstance(base, ast.Name) and base.id in built:
                 ctx.ok("flow.provenance-closure", m, r, what=f"{q} returns its orbit list")
             else:
-                ctx.fail("flow.provenance-closure", m, r, f"{q} returns `{short(v)}` instead of its orbit list", func=q)
+                ctx.fail("flow.provenance-closure", m, r, f"{q} returns `{short(v)}`, which is not a list this function filled element by element "
+                                                          f"(the provenance of its members is not established)", func=q,
+                         construct=f"{q}: returns a value that is not its orbit list")
     if n == 0:
         raise AnalysisError("flow.provenance-closure: nothing analysed")
 
